@@ -288,9 +288,11 @@ def step (s : St) (e : Ev) : Option (St × Obs) :=
         -- the ID was released while the request waited in the queue (its scrub overtook it):
         -- the request is neither sent nor registered, the op tuple is dropped (fix F15)
         if !s.inUse.contains o.id then some ({ s0 with ops := dropSender s0.ops i }, .skipped) else
-        let s1 := match o.kind, o.chan with
-          | .search, some c => { s0 with searchmap := insert s0.searchmap o.id c }
-          | _, _ => s0
+        -- `if let LdapOp::Search(ref search_tx) = op { self.searchmap.insert(id, search_tx.clone()) }`
+        let sm1 := match o.kind, o.chan with
+          | .search, some c => insert s.searchmap o.id c
+          | _, _ => s.searchmap
+        let s1 := { s0 with searchmap := sm1 }
         if !sendOk then
           -- `stream.send` failed: the op tuple in hand is dropped with everything else
           some (endDriver { s1 with ops := dropSender s1.ops i } .endedErr, .none)
